@@ -21,7 +21,7 @@ PROPERTY = "C16"
 LEVEL = "model_checking"
 
 COUNTS = [1, 2, 3, 10, 99, 100, 101, 200]
-COORD_KINDS = ["generic", "negative", "zero", "field-limit", "tiny", "twelve-digits"]
+COORD_KINDS = ["generic", "negative", "zero", "field-limit", "tiny", "small", "twelve-digits"]
 
 
 def positions(n, kind, bonded):
@@ -49,6 +49,11 @@ def positions(n, kind, bonded):
             base[-1] = (9999.9999, -9999.9999, 4321.8765)
     elif kind == "tiny":
         base[0] = (1e-5, -1e-5, 4e-5)
+    elif kind == "small":
+        # magnitudes just above the last written decimal of the 4-decimal SDF field (5e-5 .. 1e-3)
+        base[0] = (1e-4, -3e-4, 4.9e-4)
+        if n > 1:
+            base[-1] = (6e-5, 5.1e-4, -9.9e-4)
     elif kind == "twelve-digits":
         base[0] = (1.123456789012, -2.987654321098, 33.555555555555)
         if n > 1:
